@@ -52,6 +52,9 @@ CLAIMED = {
     "C05": ("generated groups of real workers (topologies x execmodels x remote activities x injected signals x timeouts) and generated failing makegateway calls; wall-clock bound and /proc process census as oracle",
             "Generated real groups (popen, python=, socket//installvia, via; thread / main_thread_only / gevent) whose members are idle, blocked, busy, sleeping, interrupt-proof, stopped, killed or multi-threaded are terminated with a generated timeout; the oracle measures the return time against 6*timeout+3 s, requires an empty group and uses a /proc census to require that every recorded worker and every process started by the case is gone; failing makegateway calls (taken ids, bad specs) must leave nothing behind.",
             "Real processes: the OS schedule is not owned; the time bound detects loss of the bound, not drift. Bounded concurrency (6 shards).", "3/C05"),
+    "C11": ("fault injection on real initiator processes (generated worker activities x ways and moments of the initiator's end, SIGSTOP census for kills during bootstrap) with a /proc liveness oracle; the worker side modelled in-process under the deterministic scheduler with virtual time and single/pairwise preemption enumeration",
+            "Generated initiator processes create real workers with generated activities and then return, _exit, exit their gateways or are SIGKILLed at generated moments (also during bootstrap); every worker pid must be gone within 25 s. In addition the real WorkerGateway runs in-process under the scheduler with bodies that block, sleep, allocate channels, send or sit in a never-returning callback while the initiator vanishes: within 16 virtual seconds serve() must return or os._exit must be reached, under generated schedules and enumerated preemptions of the shutdown path.",
+            "Real part: OS schedule not owned, bound 25 s vs. 15 s ladder. In-process part: a busy loop cannot be modelled (a spinning managed thread never yields), SIGINT delivery is recorded, not performed.", "3/C11"),
 }
 
 NOT_APPLICABLE = {}
